@@ -101,6 +101,8 @@ def check(run, repo, world):
     for pq in PROTOS:
         c = world.cls(pq)
         _check_proto(run, world, folder, mod, c)
+    _check_sci_reply(run, world, folder, mod,
+                     world.cls(SER + ".DriverSCIRS232.SCIRS232Protocol"))
 
 
 def _check_defassign(run, world, mod, c):
@@ -1565,3 +1567,82 @@ def _single_def(world, c, attr, fn):
                     return False
                 n += 1
     return n == 1
+
+
+def _check_sci_reply(run, world, folder, mod, c):
+    """R-SCI-REPLY: the device reply delivered for a status byte carries the
+    byte's two nibbles - id the upper, code the lower - for each of the 256
+    bytes.  The two field expressions are folded (class constants resolved)
+    once per byte value."""
+    run.rule("R-SCI-REPLY", "SCI status byte -> device reply: id is the "
+             "upper nibble and code the lower, for all 256 bytes")
+    r = c.lookup("_process_system_message")
+    if r is None or not isinstance(r[2], ast.FunctionDef):
+        raise AnalysisError("SCIRS232Protocol._process_system_message "
+                            "vanished")
+    fn = _fold_int_class_consts(r[2], folder, c)
+    params = [a.arg for a in fn.args.args][1:]
+    if len(params) != 1:
+        raise AnalysisError("_process_system_message: expected one "
+                            "parameter (the status byte)")
+    p = params[0]
+    calls = [n for n in ast.walk(fn) if isinstance(n, ast.Call) and unparse(
+        n.func).endswith("SCIRS232DeviceReply")]
+    if len(calls) != 1:
+        raise AnalysisError("_process_system_message: expected exactly one "
+                            "SCIRS232DeviceReply(...) (found %d); the form "
+                            "is not one the rule can read" % len(calls))
+    call = calls[0]
+    rc = world.cls(SER + ".DriverSCIRS232.SCIRS232DeviceReply")
+    fields = [st.target.id for st in rc.node.body if isinstance(
+        st, ast.AnnAssign) and isinstance(st.target, ast.Name)]
+    args = dict(zip(fields, call.args))
+    for k in call.keywords:
+        if k.arg is None:
+            raise AnalysisError("_process_system_message: **kwargs reply")
+        args[k.arg] = k.value
+    # locals computed from the byte before the reply is built
+    env_defs = []
+    for st in fn.body:
+        if isinstance(st, ast.Assign) and len(st.targets) == 1 and \
+                isinstance(st.targets[0], ast.Name):
+            env_defs.append((st.targets[0].id, st.value))
+        elif isinstance(st, ast.Assign) and len(st.targets) == 1 and \
+                isinstance(st.targets[0], ast.Tuple) and isinstance(
+                    st.value, ast.Tuple) and len(st.value.elts) == len(
+                        st.targets[0].elts) and all(isinstance(
+                            t, ast.Name) for t in st.targets[0].elts):
+            for (t, v) in zip(st.targets[0].elts, st.value.elts):
+                env_defs.append((t.id, v))
+    want = {"id": lambda b: b >> 4, "code": lambda b: b & 0xF}
+    for fld in ("id", "code"):
+        e = args.get(fld)
+        if e is None:
+            raise AnalysisError("_process_system_message: reply field %s "
+                                "not given" % fld)
+        bad = None
+        for b in range(256):
+            env = {p: b}
+            for (nm, ve) in env_defs:
+                if any(isinstance(x, ast.Call) and unparse(x.func).endswith(
+                        "SCIRS232DeviceReply") for x in ast.walk(ve)):
+                    continue
+                v = folder.eval(ve, env, c.mod, cls=c)
+                if v is not UNKNOWN:
+                    env[nm] = v
+            v = folder.eval(e, env, c.mod, cls=c)
+            if v is UNKNOWN:
+                raise AnalysisError(
+                    "_process_system_message: reply field %s = `%s` is not "
+                    "an expression of the status byte the rule can fold"
+                    % (fld, unparse(e, 60)))
+            if isinstance(v, tuple) or v != want[fld](b):
+                bad = (b, v)
+                break
+        run.ob("R-SCI-REPLY", c.qname + "._process_system_message#" + fld,
+               bad is None, "status byte 0x%02x: the reply's %s is %r, the "
+               "%s nibble is %d" % (
+                   bad[0] if bad else 0, fld, bad[1] if bad else None,
+                   "upper" if fld == "id" else "lower",
+                   want[fld](bad[0]) if bad else 0),
+               where(mod, r[2]))
